@@ -290,9 +290,26 @@ def applyNTomb (d : Defects) (r : Replica) (t : NTomb) : Replica :=
            ntombs := putNTomb t r.ntombs,
            log := markAll ([kNode t.room t.ent t.ddate, kNode t.room t.ent t.mdate] ++ localDay) r.log }
 
-/-- node deletion records of the day (`delete_nodes`, `validate_node_deletions`, `NodeDeletionEntry::delete_all`) -/
+/-- one pass of `GraphDatabaseService::delete_nodes` (repaired): `partition(|n| seen.insert(n.id))` — the first record of
+    every row id, in answer order, and the records left over -/
+def firstOfEachId : List NTomb → List Nat → List NTomb × List NTomb
+  | [], _ => ([], [])
+  | t :: rest, seen =>
+    if seen.contains t.id then ((firstOfEachId rest seen).1, t :: (firstOfEachId rest seen).2)
+    else (t :: (firstOfEachId rest (t.id :: seen)).1, (firstOfEachId rest (t.id :: seen)).2)
+
+/-- the messages `delete_nodes` sends for one answer: sub-batches in which every row id occurs once -/
+def subBatches : Nat → List NTomb → List (List NTomb)
+  | 0, _ => []
+  | fuel + 1, ts =>
+    if ts.isEmpty then [] else (firstOfEachId ts []).1 :: subBatches fuel (firstOfEachId ts []).2
+
+/-- node deletion records of the day (`delete_nodes`, `validate_node_deletions`, `NodeDeletionEntry::delete_all`).
+    Before the repair (`deletionBatchKeyedById`) the whole answer was one message, keyed by row id; since the repair two
+    records of one row travel in separate messages, each validated on the state the previous one left -/
 def applyNTombs (d : Defects) (rights : Rights) (dst : Replica) (ts : List NTomb) : Replica :=
-  (validNTombs rights dst (if d.deletionBatchKeyedById then dedupById ts else ts)).foldl (applyNTomb d) dst
+  if d.deletionBatchKeyedById then (validNTombs rights dst (dedupById ts)).foldl (applyNTomb d) dst
+  else (subBatches ts.length ts).foldl (fun r b => (validNTombs rights r b).foldl (applyNTomb d) r) dst
 
 /-- `Node::filter_existing`: `none` = not requested, `some old` = requested with the local row `old`.
     With #18 repaired (`ingestIgnoresTombstones := false`) an announced id that carries a deletion record is not
